@@ -372,3 +372,7 @@ mod test {
         assert_eq!(diff(&c, &d), vec![Felt::zero(); n]);
     }
 }
+
+#[cfg(any(kani, aszepieniec_falcon_rust_verif))]
+#[path = "/verif/hooks/falcon_field.rs"]
+pub(crate) mod verif_hook;
